@@ -18,23 +18,55 @@ theorem C04_edge_order (bs : List RawBlock) (a b : Nat) (ha : a < bs.length) (hb
     ((addEdge bs a b)[a]!).next = (bs[a]!).next ++ [b] ∧ ((addEdge bs a b)[b]!).prev = (bs[b]!).prev ++ [a] :=
   ⟨CfgL.addEdge_next bs a b ha, CfgL.addEdge_prev bs a b hb⟩
 
-/-- Python's "remove from the list being iterated" visits only every other element: the pruning loop therefore
-    leaves a dead block's second successor with a stale predecessor (known finding F09) -/
-theorem C04_prune_skips : (skipIter [10, 20]).1 = [10] ∧ (skipIter [10, 20]).2 = [20] := by decide
-
-/-- concrete instance of F09: `b main; dead: int 1; bnz x; main: int 1; x: return` — after pruning, block
-    x still lists the removed dead block as a predecessor -/
+/-- pruning removes EVERY edge of an unreachable block (repaired in /repo: the loop used to remove from the list it was
+    iterating and skipped every other successor, known_findings F09 "fixed").  Regression witness: a dead block with
+    two live successors -/
 def staleWitness : List Ins :=
   [⟨1, .b "main", ""⟩, ⟨2, .label "dead", ""⟩, ⟨3, .int (.lit 1), ""⟩, ⟨4, .bnz "x", ""⟩,
    ⟨5, .label "main", ""⟩, ⟨6, .int (.lit 1), ""⟩, ⟨7, .label "x", ""⟩, ⟨8, .ret, ""⟩]
 
-def C04_mirror_full : Prop :=
-  ∀ t, parseTeal staleWitness = .ok t → ∀ b ∈ t.allBlocks, t.live.contains b.idx → ∀ p ∈ b.prev, t.live.contains p
+theorem C04_prune_witness :
+    ∀ t, parseTeal staleWitness = .ok t → ∀ b ∈ t.allBlocks, t.live.contains b.idx → ∀ p ∈ b.prev, t.live.contains p := by
+  intro t ht
+  have : t = (match parseTeal staleWitness with | .ok t => t | .error _ => default) := by rw [ht]
+  subst this
+  decide
 
-theorem C04_mirror_full_false : ¬ C04_mirror_full := by
-  intro h
-  have := h _ rfl
-  revert this; decide
+/-- pruning one unreachable block leaves it without successors -/
+theorem C04_prune_all (bs : List RawBlock) (bi : Nat) (bs' : List RawBlock) (h : pruneOne bs bi = .ok bs')
+    (hbi : bi < bs.length) : (bs'[bi]!).next = [] := by
+  unfold pruneOne at h
+  simp only [bind, Except.bind] at h
+  split at h
+  · cases h
+  · rename_i bs1 h1
+    simp only [pure, Except.pure, Except.ok.injEq] at h
+    subst h
+    have hlen : bs1.length = bs.length := by
+      -- the fold only rewrites `prev` fields
+      have key : ∀ (vis : List Nat) (b0 b1 : List RawBlock),
+          vis.foldlM (fun (bs : List RawBlock) (bn : Nat) => do
+            let p ← removeFirst (bs[bn]!).prev bi
+            pure ((bs.zipIdx).map fun (blk, id) => if id == bn then { blk with prev := p } else blk)) b0 = Except.ok b1 →
+          b1.length = b0.length := by
+        intro vis
+        induction vis with
+        | nil => intro b0 b1 h; simp [List.foldlM, pure, Except.pure] at h; subst h; rfl
+        | cons v vs ih =>
+          intro b0 b1 h
+          simp only [List.foldlM, bind, Except.bind] at h
+          split at h
+          · cases h
+          · rename_i b2 h2
+            split at h2
+            · cases h2
+            · rename_i p hp
+              simp only [pure, Except.pure, Except.ok.injEq] at h2
+              subst h2
+              have := ih _ _ h
+              simpa using this
+      exact key _ _ _ h1
+    simp [hlen, hbi]
 
 example : (createBB staleWitness ((insNext staleWitness).toOption.getD [])).1.flatten = List.range 8 := by decide
 
